@@ -9,7 +9,7 @@ CLAIMED = {
              'NUL-terminated string shorter than PATH_MAX: level_valid(p) is true exactly when no prefix of the component '
              'sequence has negative depth and all components were visited; PathCat forwards base++p only for such p and accepts '
              'every such p that fits.  Bounded CBMC (length <= 7) and a native exhaustive run (length <= 9/13) on the real '
-             'level_valid/PathCat with an independent resolver supply counterexamples.  One generated proof per path-taking operation of '
+             'level_valid and on the real init() + PathCat for eight bases (absolute, relative, ".", "/"; each path also with the base text in front) with an independent resolver supply counterexamples.  One generated proof per path-taking operation of '
              'SubFileSystem (32, read from subfs.cpp on every run): every path argument passes through a PathCat of this sub-filesystem '
              'and the underlay receives the PathCat result, never the caller\'s pointer.',
         note=TRUST + ' strlen/memcpy are libc stubs; std::string_view == modelled for the empty end() view only; symlink\'s oldname (link content) '
@@ -21,13 +21,13 @@ CLAIMED = {
 CLAIMED['C14'] = dict(
     text='Proof (for any number of elements up to 1024 and any lengths, zero-length elements anywhere): iovector_view::sum, shrink_to, '
          'do_extract_front with its three callbacks (discard / copy out / sub-vector), do_extract_back (discard; thorough tier), '
-         'extract_front_continuous, extract_back_continuous are lowered from /repo on every run; each loop of the real code is '
+         'extract_front_continuous, extract_back_continuous and the iov_iterator constructor (0-element views incl. {nullptr, 0}) are lowered from /repo on every run; each loop of the real code is '
          'verified by the Hoare loop rule (invariant over ghost prefix sums + ghost element index, instantiated textually on the '
          'real loop) and the postconditions pin the whole resulting view to the remaining flat range, the return value to '
          'min(request,total), copied bytes to the matching flat positions (observing memcpy stub) and all accesses to the '
          'elements\' extents.  Bounded stand-ins (not proofs): slice for at most 2 (thorough: 3) source elements and output slots, '
-         'extract_back(buf) for at most 2 elements (thorough).  extract_back(iov), memcpy_iov, pipe_iov and the owning iovector wrappers are '
-         'covered only by the native differential run of the real code against a flat-string oracle (17 operations), not proved.',
+         'extract_back(buf) for at most 2 elements (thorough), memcpy_iov for at most 2+2 elements (thorough, 48 min).  extract_back(iov), pipe_iov and the owning iovector wrappers are '
+         'covered (memcpy_iov in the quick tier too) only by the native differential run of the real code against a flat-string oracle (17 operations), not proved.',
     note=TRUST + ' memcpy is a stub that checks ranges and tracks one solver-chosen byte; element buffers are abstract addresses '
          '(their memory is not modelled); prefix-sum monotonicity is a separately proved lemma; total length <= 2^62.',
     technique='deductive verification: Hoare loop rule instantiated on the real loops (cbmc + cvc5), ghost prefix sums and ghost indices; '
@@ -64,7 +64,8 @@ CLAIMED['C04'] = dict(
          'do_thread_usleep(_defer) / yield_as_sleep (a thread marked by thread_shutdown() only ever takes the capped sleep; the wake-up reason is '
          'consumed exactly once).  Bounded: SleepQueue push / pop_front / pop (incl. removal from the '
          'middle, absent thread) preserve the heap representation invariant and the set of sleepers and pop_front returns an earliest deadline, '
-         'for every heap of at most 6 (quick) / 14 (thorough) sleepers with arbitrary 64-bit deadlines.',
+         'for every heap of at most 6 (quick) / 14 (thorough) sleepers with arbitrary 64-bit deadlines.  Native, on the real scheduler: one pass of resume_threads() leaves no expired sleeper among 300; '
+         'thread_usleep / thread_usleep_defer of a thread marked by thread_shutdown() return within the bound; interrupt reasons are reported once.',
     note=TRUST + ' The heap result is bounded, not a proof; the resume pass uses the heap-order property of front() as an assumed contract '
          '(its bounded check is the sleepq obligations). Not decided by contracts: that scheduling rounds happen (idle loop / run-queue '
          'rotation as a whole), the standby hand-off across vCPUs as a history, the context switch (assembly), thread_usleep_defer.  std::vector is a fixed-capacity array model; '
@@ -78,12 +79,12 @@ CLAIMED['C18'] = dict(
          'under m_lock, hence sequentially): a granted range overlaps no held range and keeps the set ordered; a request overlapping a held '
          'range is never granted and waits once; adjust_range succeeds only if the new range overlaps no other holder and keeps the order, '
          'and changes nothing when refused; unlock(offset,length) (Hoare loop rule on the erase loop) releases every held range inside the given '
-         'range and no other, unlock(handle) exactly that range.  A native campaign runs random single-vCPU histories on the real RangeLock against a shadow '
+         'range and no other, unlock(handle) exactly that range; ~Range() (run by the erase) wakes EVERY thread waiting on the released range.  A native campaign runs random single-vCPU histories on the real RangeLock against a shadow '
          'list.  KNOWN FINDING (known_findings.txt): requests that denote no byte (length 0, offset 2^64-1) are inserted although the ordering predicate is '
          'not irreflexive for them.',
     note=TRUST + ' std::set is modelled as a sorted array with assumed lower_bound/emplace_hint/erase contracts; the set invariant is used at '
          'ghost-index instances.  Not decided: a waiter is woken when the conflicting range is unlocked and eventually acquires (condition '
-         'variable + scheduler, ~Range() notifying); held empty ranges.',
+         'variable + scheduler as a history); held empty ranges.',
     technique='deductive verification: loop-free full-domain CBMC harnesses (ghost-index set invariant) on mechanically lowered real code',
     design='§6 C18')
 CLAIMED['C12'] = dict(
@@ -158,13 +159,13 @@ CLAIMED['C06'] = dict(
     design='§6 C06, §3.4')
 CLAIMED['C07'] = dict(
     text='Kernel only (the property quantifies over interleavings): LockfreeRingQueueBase constructor arithmetic, idx/turn/check_full/'
-         'check_empty and the three mark functions, and LockfreeMPMCRingQueue::push / pop are lowered from /repo on every run.  Lemmas over all '
+         'check_empty and the three mark functions, and LockfreeMPMCRingQueue::push / pop / send / recv are lowered from /repo on every run.  Lemmas over all '
          '64-bit values (requested capacity <= 2^62): capacity is the smallest power of two >= max(c,2), idx stays inside the ring, check_full '
          'holds exactly with `capacity` elements in flight, one lap later is the same slot in the next turn, the per-slot mark protocol '
          'free -> written -> read == free-for-next-lap, two positions sharing a slot differ in turn.  Step contracts (Hoare loop rule on the '
          'retry loops, under an interference model): push/pop write or read data only in the slot whose position this call claimed by winning '
          'the CAS on tail/head (which advances by exactly one), publish exactly once with the mark of the claimed position, and a refused '
-         'call claims and writes nothing.  LockfreeBatchMPMCRingQueue::push_batch / pop_batch: the claimed range is non-empty, never laps '
+         'call claims and writes nothing; the blocking send / recv claim one position unconditionally, touch the slot only after its mark showed their turn, and recv copies the element out BEFORE it releases the slot.  LockfreeBatchMPMCRingQueue::push_batch / pop_batch: the claimed range is non-empty, never laps '
          'unread / unpublished elements for ANY counter values incl. 64-bit wrap-around (tail-head <= capacity kept as a guarantee), element J '
          'of the batch lives in the slot of position claim+J, publication / completion happens once, in claim order, after the copy.  '
          'LockfreeSPSCRingQueue push / pop / produce_push_batch(_fully) / consume_pop_batch: refusal only on an observed full / empty ring, '
@@ -174,7 +175,7 @@ CLAIMED['C07'] = dict(
          'taken tokens on `pending`, unregisters on every path; a producer leaves without signalling only if it saw no idle consumer or as many '
          'tokens in flight as the latest idler count it read, and signals at most once after reserving the token.  A native program drives the real '
          'SPSC / batch-MPMC / MPMC queues from one thread against a deque model with the counters started at 0 and just below 2^64.',
-    note=TRUST + ' NOT decided: FIFO per producer and exactly-once delivery as whole-history properties, send/recv pause loops, the '
+    note=TRUST + ' NOT decided: FIFO per producer and exactly-once delivery as whole-history properties, termination of the send/recv pause loops, the '
          'end-to-end liveness of the RingChannel notification (it needs the fence/seq_cst ordering and the scheduler: memory-model and schedule facts); sequentially consistent atomics; rely: tail/head only '
          'grow and a slot is written by another thread only between its own claim and publication.',
     technique='deductive verification: bit-vector lemmas + step contracts under an interference (rely) model, CBMC on mechanically lowered real code',
@@ -189,7 +190,7 @@ CLAIMED['C01'] = dict(
          'contending) BEFORE exactly that waiter is woken; the recursive depth arithmetic releases the mutex exactly at depth 0; spinlock '
          'lock/try_lock succeed exactly when this call flipped the flag false -> true; ticket lock returns only when its own ticket is served '
          'and unlock advances serv by one; qspinlock (MCS): try_lock takes the lock only from the free state, lock enqueues its holder once, '
-         'clears its own flag only before linking behind the predecessor and returns only after observing the hand-over, unlock does exactly one of '
+         'clears its own flag before linking behind the predecessor (and only then) and returns only after observing the hand-over, unlock does exactly one of '
          'handing the lock to its linked successor or resetting the tail when nobody is queued.  The hand-off relies on the scheduler kernels proved '
          'under C04 and re-run here: thread_interrupt never replaces the reason parked for a woken waiter, prelocked_thread_interrupt wakes the '
          'locked head exactly once.  A native campaign runs random single-vCPU histories (lock / timed lock / try_lock / interrupt / unlock) on the real '
